@@ -91,6 +91,13 @@ class Report:
         except AnchorLost as e:
             self.obs.append(Ob(rid, "<anchor>", str(e), False,
                                "anchor lost: %s — the rule cannot be evaluated (fail closed)" % e, None, False))
+        except Exception as e:  # a rule that cannot digest the shape of the code it is looking at: fail closed, with a VIOLATION line
+            import traceback
+            tb = traceback.format_exc().strip().splitlines()
+            where = [l.strip() for l in tb if l.strip().startswith("File ")][-1:] or [""]
+            self.obs.append(Ob(rid, "<rule-crash>", type(e).__name__, False,
+                               "the rule could not be evaluated on this code (%s: %s at %s) — fail closed; the anchored code has a shape "
+                               "the rule does not know" % (type(e).__name__, str(e)[:200], where[0][:160]), None, False))
         return len(self.obs) - n0
 
 
